@@ -351,3 +351,16 @@ package x509
 //@ site namedCurveFromOID#2 as c2
 //@ loop 1 invariant 0 <= len(privateKey)
 //@ ensures [a-key-or-an-error] (key != nil) != (err != nil)
+
+// C11: the certificate-list entry point is total. pem.Decode answers nil for anything that is not a
+// complete block, so the PEM unwrapping may only look inside a block it got; whatever bytes it settles
+// on, the outcome is the DER parser's outcome on exactly those bytes.
+//@ func ParseCertificateList
+//@ props C11
+//@ arith int
+//@ site pem.Decode#1 as pd
+//@ site ParseCertificateListDER#1 as der
+//@ ensures [outcome-is-the-der-parsers] der.called && result0 == der.res0 && result1 == der.res1
+//@ at der assert [a-decoded-crl-block-is-unwrapped] pd.called && pd.res0 != nil && pd.res0.Type == pemType ==> der.derBytes == pd.res0.Bytes
+//@ at der assert [anything-else-goes-to-the-der-parser-as-given] !(pd.called && pd.res0 != nil && pd.res0.Type == pemType) ==> der.derBytes == clBytes
+//@ at pd assert [pem-decoder-sees-the-whole-input] pd.data == clBytes
